@@ -3,6 +3,7 @@ import SaphyrModel.Proofs.Run
 import SaphyrModel.Proofs.History
 import SaphyrModel.Proofs.PushPull
 import SaphyrModel.Proofs.TermRun
+import SaphyrModel.Proofs.PushSingle
 /-! # C17 — Pull, peek and push interfaces tell the same story (Api model)
 
 Laws of `peek` / `next_event` on the model of the parser's driver (`SaphyrModel/Api.lean`), for
@@ -163,6 +164,69 @@ theorem push_eq_pull (toks : List Token) (scanErr : Option ScanError) (eof : Mar
     have h4 : phi (PState.init toks scanErr eof keep) = 16 * toks.length + 1 := phi_init toks scanErr eof keep
     have h5 : n ≤ phi (PState.init toks scanErr eof keep) := hspec.2
     omega
+
+/-- **Single-document mode = pull.** For every token list, latched scanner error and `keep_tags`
+    setting: a consumer that calls `Parser::load(recv, multi = false)` on a fresh parser again and
+    again until a call delivers StreamEnd or fails (given `16·|tokens| + 2` calls and as many loop
+    iterations per call) never reaches a panic site and
+    * when it stops normally, the receiver got, over all calls together, exactly the events of plain
+      iteration, in order, ending with StreamEnd;
+    * when a call fails, plain iteration returns the same error after some prefix of events. -/
+theorem single_docs_eq_pull (toks : List Token) (scanErr : Option ScanError) (eof : Marker) (keep : Bool)
+    (c n : Nat) (hc : 16 * toks.length + 2 ≤ c) (hn : 16 * toks.length + 2 ≤ n) :
+    let a0 := Api.init (PState.init toks scanErr eof keep)
+    match loadRepeat c n ⟨a0, []⟩ with
+    | .ok s => ∀ m, iterate (s.out.length + 1 + m) a0 [] = (s.out.reverse, none)
+    | .err e => ∃ evs, ∀ m, iterate (evs.length + 1 + m) a0 [] = (evs, some (.err e))
+    | .panic _ => False := by
+  intro a0
+  obtain ⟨c', rfl⟩ : ∃ c', c = c' + 1 := ⟨c - 1, by omega⟩
+  have hspec := repeat_fresh_spec c' n (PState.init toks scanErr eof keep) rfl rfl rfl
+  have hphi : phi (PState.init toks scanErr eof keep) = 16 * toks.length + 1 := phi_init toks scanErr eof keep
+  cases hl : loadRepeat (c' + 1) n ⟨a0, []⟩ with
+  | ok s =>
+    simp only [a0] at hl
+    simp only [hl, RepSpec] at hspec ⊢
+    obtain ⟨evs, vEnd, a1, hst, hne, hn1, hvend, hout⟩ := hspec
+    intro m
+    have := iterate_of_steps_end hst hne hn1 hvend rfl m
+    rw [show s.out.length + 1 + m = evs.length + 2 + m by simp [hout], this]
+    simp [hout]
+  | err e =>
+    simp only [a0] at hl
+    simp only [hl, RepSpec] at hspec ⊢
+    obtain ⟨evs, a', hst, hne, herr⟩ := hspec
+    exact ⟨evs, fun m => iterate_of_steps_err hst hne herr rfl m⟩
+  | panic x =>
+    simp only [a0] at hl
+    simp only [hl, RepSpec] at hspec ⊢
+    have h5 := hspec.2
+    simp only [Api.init] at h5
+    omega
+
+/-- **The calls together deliver the same stream as multi-document mode.** When both ways of using
+    the push interface end normally the receiver holds the same events; neither reaches a panic
+    site (`push_eq_pull`, `single_docs_eq_pull`). -/
+theorem single_docs_eq_multi (toks : List Token) (scanErr : Option ScanError) (eof : Marker) (keep : Bool)
+    (c n : Nat) (hc : 16 * toks.length + 2 ≤ c) (hn : 16 * toks.length + 2 ≤ n) (s1 s2 : Push)
+    (h1 : loadRepeat c n ⟨Api.init (PState.init toks scanErr eof keep), []⟩ = .ok s1)
+    (h2 : load true n ⟨Api.init (PState.init toks scanErr eof keep), []⟩ = .ok s2) : s1.out = s2.out := by
+  have a := single_docs_eq_pull toks scanErr eof keep c n hc hn
+  have b := push_eq_pull toks scanErr eof keep n hn
+  simp only [h1] at a
+  simp only [h2] at b
+  have ha := a (s2.out.length)
+  have hb := b (s1.out.length)
+  rw [show s1.out.length + 1 + s2.out.length = s2.out.length + 1 + s1.out.length by omega, hb] at ha
+  have := congrArg Prod.fst ha
+  simpa using this.symm
+
+/-- **One document per call.** Between documents, a call of the document loop in single-document mode
+    forwards either StreamEnd alone, or a run of events that starts with DocumentStart, ends with
+    DocumentEnd and leaves the parser between documents again (ready for the next call) — or it
+    returns the error the next pull returns. -/
+theorem one_document_per_call (n : Nat) (s : Push) (h : PInv s.api ⟨1, []⟩) :
+    Doc1Spec n s (loadLoop false n s) := doc1_spec n s h
 
 /-- the history theorem is not vacuous: a history that interleaves both calls -/
 example : ([Call.peek, .next, .peek, .peek, .next] : List Call).length ≤ 5 := by decide
